@@ -351,7 +351,7 @@ func checkC05(c *Ctx) {
 						}
 					}
 				}
-				r.Ob("CTOR-NIL", fmt.Sprintf("%s dereferences parameter %s #%d", name, prm.Name(), ordinalDeref(cs.Fn, in, prm.Name())), t.Pos(in.Pos()), guarded,
+				r.Ob("CTOR-NIL", fmt.Sprintf("%s dereferences parameter %s #%d", name, pname(prm), ordinalDeref(cs.Fn, in, pname(prm))), t.Pos(in.Pos()), guarded,
 					fmt.Sprintf("the argument may be nil (%s) and is dereferenced without a nil test: the parser panics and reports the position-less `unexpected error`", why))
 			})
 		}
